@@ -20,6 +20,29 @@ CHECKS = {
                   "recorded traces validated by TLC (trace spec)"),
 }
 
+CHECKS["C11"] = dict(
+    level="model_checking",
+    text="RTree.tla is an exact integer replica (R2) of rtree.go's insert/split/adjust and delete/condense/re-insert/collapse over "
+         "nested tree values; TLC checks it exhaustively against the bag-semantics oracle (R1: size, leaf multiset, balance, exact "
+         "envelopes, fan-out, search = scan, failed delete is a no-op) for bounded object pools. TLC then emits a cover of every "
+         "(operation, resulting state) pair plus simulation walks; the Go harness replays them and seeded random "
+         "fill/churn/drain/refill histories on real trees, recording after every call the structure snapshot (verif hook), Size, "
+         "Depth and SearchIntersect answers; RTreeTrace.tla validates each recorded step against R1 and measures conformance to R2.",
+    design_ref="DESIGN.md section 5, C11",
+    note="Trusted: TLC, the read-only VerifSnapshot hook, the harness's object-identity mapping. Objects are *Bounds pointers and "
+         "Point values with integer coordinates; (MinC,MaxC) in {(2,4),(2,5),(3,6),(3,7),(2,9),(4,8)}; exhaustive only for pools of 5-9 objects.",
+    technique="TLA+ executable replica of the R-tree model-checked with TLC against a bag oracle; TLC behaviours replayed on the code; "
+              "per-step trace validation of recorded executions with TLC")
+CHECKS["C12"] = dict(
+    level="model_checking",
+    text="Same RTree family: the R2 replica includes the MINDIST-ordered / MINMAXDIST-pruned nearest-neighbour searches in integer "
+         "squared distances and TLC checks NearestOK/KNearestOK in every reachable state of the bounded pools; on every replayed and "
+         "random history the harness queries NearestNeighbor and NearestNeighbors(k) (k in {1,2,3,size,size+2}) at five points after "
+         "each call and RTreeTrace.tla (Focus = C12) compares the answers with the k smallest box distances of the bag.",
+    design_ref="DESIGN.md section 5, C12",
+    note="Trusted: as C11. Distances are compared as exact integer squares (sqrt is monotone); ties are compared by distance only.",
+    technique="TLA+ model of the NN search checked by TLC; recorded NN answers of the real code validated by TLC against the bag oracle")
+
 NOT_YET = "check not built yet in this round of work; will be claimed when its specification, replay and trace validation exist"
 NA = {
     "C09": "oracle is proj4js 2.3.12 and closed-form geodesy (real-valued transcendental functions, a JavaScript program that "
@@ -76,7 +99,7 @@ def main():
         f.write("\n")
 
 
-HOOK_COMMITS = []
+HOOK_COMMITS = ["d8229ad"]
 
 if __name__ == "__main__":
     main()
